@@ -13,6 +13,7 @@ import (
 	"math"
 	"runtime/debug"
 	"strings"
+	"sync/atomic"
 	"time"
 
 	"git.sr.ht/~rockorager/vaxis"
@@ -44,6 +45,7 @@ type WD struct {
 	Items  []*WD    `json:",omitempty"` // list: items
 	Cursor bool     `json:",omitempty"` // list: DrawCursor
 	Gap    int      `json:",omitempty"` // list: Gap
+	Every  bool     `json:",omitempty"` // list: the builder has a widget for EVERY index (row i = Items[i mod len])
 }
 
 // DrawStep is one Draw call, optionally preceded by list operations.
@@ -113,12 +115,40 @@ func PanicClass(v any) string {
 	return "other"
 }
 
+const noReturn = "builder-calls-exceeded"
+
 // Stacks, when set, receives the stack of every recovered panic (debugging).
 var Stacks func(v any, stack []byte)
+
+// ---- a Draw that does not return --------------------------------------------
+//
+// A list whose builder has a widget for every index ends its drawing loop only
+// when the viewport is full. Such a builder counts the calls of one Draw; past
+// builderBudget (several thousand times what any viewport the generators use
+// can show) it panics with budgetExceeded, which unwinds the library's loop:
+// the driver records that Draw did not return (ret = false, pmsg
+// builder-calls-exceeded). This keeps a loop that never ends from eating the
+// machine's memory and keeps the observation deterministic. Every Draw also
+// runs in its own goroutine with a deadline: a safety net only, for a loop
+// that spins without asking the builder (recorded as ret = false, pmsg deadline).
+const builderBudget = 20000
+
+const drawDeadline = 120 * time.Second
+
+type budgetExceeded struct{}
+
+type budget struct {
+	calls int
+	spent atomic.Bool // set by the deadline: the next builder call unwinds the abandoned Draw
+}
 
 func guard(f func()) (panicked bool, class string) {
 	defer func() {
 		if r := recover(); r != nil {
+			if _, ok := r.(budgetExceeded); ok {
+				panicked, class = true, noReturn
+				return
+			}
 			panicked, class = true, PanicClass(r)
 			if Stacks != nil {
 				Stacks(r, debug.Stack())
@@ -247,7 +277,7 @@ func (d *WD) Sig() string {
 	return d.K
 }
 
-func build(d *WD, rec *[]trace.Ev, top bool) vxfw.Widget {
+func build(d *WD, rec *[]trace.Ev, top bool, bud *budget) vxfw.Widget {
 	var w vxfw.Widget
 	switch d.K {
 	case "text":
@@ -266,7 +296,7 @@ func build(d *WD, rec *[]trace.Ev, top bool) vxfw.Widget {
 		t.Softwrap = d.Wrap
 		w = t
 	case "center":
-		w = &center.Center{Child: build(d.C, rec, false)}
+		w = &center.Center{Child: build(d.C, rec, false, bud)}
 	case "button":
 		w = button.New(d.content(), func() (vxfw.Command, error) { return nil, nil })
 	case "field":
@@ -276,10 +306,16 @@ func build(d *WD, rec *[]trace.Ev, top bool) vxfw.Widget {
 	case "list":
 		items := make([]vxfw.Widget, len(d.Items))
 		for i, it := range d.Items {
-			items[i] = build(it, rec, false)
+			items[i] = build(it, rec, false, bud)
 		}
 		l := &list.Dynamic{DrawCursor: d.Cursor, Gap: d.Gap}
 		l.Builder = func(i uint, cursor uint) vxfw.Widget {
+			if d.Every && len(items) > 0 {
+				if bud.calls++; bud.calls > builderBudget || bud.spent.Load() {
+					panic(budgetExceeded{})
+				}
+				return items[i%uint(len(items))]
+			}
 			if i >= uint(len(items)) {
 				return nil
 			}
@@ -336,7 +372,8 @@ func runDraw(ctx *Ctx, sc *Scn) (evs []trace.Ev, note string) {
 	evs = append(evs, trace.Ev{"ev": "reset", "k": "draw", "rows": 1, "cols": 1})
 	var rec []trace.Ev
 	var w vxfw.Widget
-	if p, cls := guard(func() { w = build(sc.Widget, &rec, true) }); p {
+	bud := &budget{}
+	if p, cls := guard(func() { w = build(sc.Widget, &rec, true, bud) }); p {
 		return append(evs, trace.Ev{"ev": "panic", "pmsg": "build:" + cls}), "panic: build"
 	}
 	for _, st := range sc.Draws {
@@ -354,11 +391,44 @@ func runDraw(ctx *Ctx, sc *Scn) (evs []trace.Ev, note string) {
 			Max:        vxfw.Size{Width: uint16(st.MaxW), Height: uint16(st.MaxH)},
 			Characters: vaxis.Characters,
 		}
+		type result struct {
+			s   vxfw.Surface
+			err error
+			p   bool
+			cls string
+		}
+		bud.calls = 0
+		done := make(chan result, 1)
+		go func() {
+			var r result
+			r.p, r.cls = guard(func() { r.s, r.err = w.Draw(dc) })
+			done <- r
+		}()
 		var s vxfw.Surface
 		var err error
-		p, cls := guard(func() { s, err = w.Draw(dc) })
+		var p bool
+		var cls string
+		ret := true
+		select {
+		case r := <-done:
+			s, err, p, cls = r.s, r.err, r.p, r.cls
+			if p && cls == noReturn {
+				p, ret = false, false
+			}
+		case <-time.After(drawDeadline):
+			// abandoned (it ends at its next builder call, if it makes one)
+			bud.spent.Store(true)
+			ret, cls = false, "deadline"
+		}
 		ev := trace.Ev{"ev": "draw", "maxw": st.MaxW, "maxh": st.MaxH, "minw": st.MinW, "minh": st.MinH,
-			"panic": p, "pmsg": cls, "err": err != nil}
+			"panic": p, "pmsg": cls, "err": err != nil, "ret": ret}
+		if !ret {
+			ev["root"] = map[string]any{"kind": "none", "w": 0, "h": 0, "kids": []any{}}
+			ev["probes"] = []any{}
+			note = "Draw does not return: " + cls
+			evs = append(evs, ev)
+			break // the widget's state is that of an abandoned Draw
+		}
 		if p {
 			ev["root"] = map[string]any{"kind": "none", "w": 0, "h": 0, "kids": []any{}}
 			ev["probes"] = []any{}
